@@ -44,4 +44,50 @@ CHECKS = {
             F("FuzzC05Text", "60s"),
         ],
     },
+    "C14": {
+        "pkg": "c14", "level": "exploration",
+        "manifest": {
+            "text": "generated (command, LOGNAME, SSH_CONNECTION, argv) tuples; every accepted result is recomputed independently from the inputs (reference JSON decode / legacy tokeniser, net/netip, token arithmetic, version parser) and inputs valid by construction must be accepted",
+            "note": "sampling; transaction-id freshness is checked between two evaluations of each input (collision probability 2^-40 per case is accepted as noise-free in practice); unpredictability is not testable",
+            "technique": "property-based testing (rapid) + native fuzzing; oracle = independent recomputation + liveness of valid-by-construction inputs",
+        },
+        "assumptions": ["net/netip is the reference for 'syntactically valid address without zone'", "wire names of the request message are the client contract"],
+        "subchecks": [
+            R("TestC14Params", 20000, 200000),
+            F("FuzzC14Command", "60s"),
+        ],
+    },
+    "C15": {
+        "pkg": "c15", "level": "exploration",
+        "manifest": {
+            "text": "generated attribute sets round-tripped through both wire formats, hand-built JSON and legacy texts judged by a reference decoder (encoding/json into a mirror of the documented wire names) and a set-valued reference tokeniser",
+            "note": "sampling; legacy round trip only over the stated domain (values free of Unicode whitespace and '@'); encoding/json trusted as the meaning of 'decodes as a JSON attribute object'",
+            "technique": "property-based testing (rapid) + native fuzzing; oracle = round-trip + reference decoder (differential)",
+        },
+        "assumptions": [
+            "wire member names (ifVer, username, hostname, sshClientVersion, ...) and legacy token names are the contract with separately shipped clients",
+            "extension values are JSON-native (string, float64, bool, null, list, object); NaN/Inf are outside the domain",
+        ],
+        "subchecks": [
+            R("TestC15JSONRoundTrip", 10000, 100000),
+            R("TestC15LegacyRoundTrip", 10000, 100000),
+            R("TestC15LegacyText", 10000, 100000),
+            R("TestC15JSONText", 10000, 100000),
+            F("FuzzC15Unmarshal", "60s"),
+        ],
+    },
+    "C19": {
+        "pkg": "c19", "level": "exploration",
+        "manifest": {
+            "text": "the complete attribute grid named by the quantifier (flags x touch policy x critical option x version) is enumerated and compared with an independently written decision table; random decorations, near-miss KeyIDs and principal lists are generated around it",
+            "note": "grid exhaustive for the listed touch-policy representatives; strings sampled; type constants compared through the exported names",
+            "technique": "property-based testing (rapid) + exhaustive enumeration of the finite core; oracle = reference decision table",
+        },
+        "assumptions": ["touch-policy values outside {-1,0,1,2,3,4,7} behave like the sampled out-of-range values"],
+        "subchecks": [
+            E("TestC19Grid"),
+            R("TestC19Random", 20000, 200000),
+            R("TestC19PrincipalsAllTypes", 5000, 50000, ts=4),
+        ],
+    },
 }
